@@ -375,7 +375,7 @@ static void inc_free(const Args &a) {
     Obj &o = obj_get(id, ("inc." + sch).c_str());
     io->free_(o.mem);
     Ev ev("inc.free"); ev.s("scheme", sch).n("obj", id);
-    if (a.num("dump_raw")) ev.b("raw", (const uint8_t *)o.mem, o.size);
+    if (a.num("dump_raw")) ev.n("wipe", a.num("wipe")).b("raw", (const uint8_t *)o.mem, o.size);
     ev.emit(); obj_del(id);
 }
 
